@@ -56,7 +56,13 @@ def run_case(case, ctx):
         ctx.label("discarded:cyclic")
         return
     lex = Lexicon(cfg.terms)
-    text_g = cfg.to_parglare()
+    # terminal priorities cannot matter for a non-overlapping lexicon, so the
+    # expected results do not depend on them (they exercise the scanner's
+    # priority shortcuts next to the always-available STOP token)
+    prios = case.get("prios") or []
+    tmeta = {n: str(prios[i % len(prios)]) for i, n in enumerate(cfg.term_names)
+             if prios and prios[i % len(prios)] != 10}
+    text_g = cfg.to_parglare(term_meta=tmeta)
     tb = case["table"]
     parsers = []
     try:
@@ -202,6 +208,7 @@ def _case(gstrat):
     def c(draw):
         g = draw(gstrat.filter(gen.acyclic))
         return {"g": g, "table": draw(st.sampled_from(["LALR", "SLR"])), "fill": draw(FILL),
+                "prios": draw(st.lists(st.sampled_from([10, 10, 5, 15]), min_size=1, max_size=3)),
                 "max_len": 5 if len(g["terms"]) <= 2 else 4}
     return c()
 
